@@ -14,7 +14,8 @@ def main():
                 "of two variables; all and/or/not trees of depth 1 and a seeded sample of depth 2) with the reference answer set "
                 "computed by TLC on the persisted world. Each program is evaluated in memory over the persisted objects and "
                 "translated with eql_to_sql and executed on the SQLite database holding them (once with the relationship path to "
-                "another table, and a sub-sample with a self-referential path); an(...) and the(...). A translation is either "
+                "another table, and a sub-sample with a self-referential path); an(...) and the(...). Joins between two variables of different "
+                "classes through relationship attributes (SqlJoin.tla, 46 patterns): one row per binding, the() outcome. A translation is either "
                 "rejected with an EQLTranslationError or must select exactly the reference rows. Non-trivial = an accepted program "
                 "with a connective; distinct by (program, variant).")
     conds = conditions(ctx, "EQLCore_gen_sql_d1.cfg", 200) + conditions(ctx, "EQLCore_gen_sql.cfg" if thorough else "EQLCore_gen_sql_q.cfg", 1000)
@@ -31,9 +32,41 @@ def main():
     satoms = ["in1", "in1t", "in2", "inC", "inE", "eqC", "neC1", "c1", "a0", "b1"]
     chain_cases += [{"satoms": [a], "op": "and"} for a in satoms]
     chain_cases += [{"satoms": [a, b], "op": op} for a in satoms[:8] for b in satoms if a != b for op in ("and", "or")]
+    # joins between two variables of different classes (SqlJoin.tla: the expected bag per pattern comes from TLC)
+    ctx.run_tlc("SqlJoin", "SqlJoin_mc.cfg", expect="ok")
+    ctx.run_tlc("SqlJoin", "SqlJoin_sw_CollapsePartners.cfg", expect="violation")
+    join_cases = [j for j in ctx.run_tlc("SqlJoin", "SqlJoin_gen.cfg", expect="ok").json_lines() if isinstance(j, dict) and "join" in j]
+    if len(join_cases) != 46:
+        raise MachineryError(f"expected 46 join patterns, got {len(join_cases)}")
     n_main = len(cases)
-    results = replay("eqlsql", cases + chain_cases)
-    ctx.replayed = len(cases) + len(chain_cases)
+    results = replay("eqlsql", cases + chain_cases + join_cases)
+    ctx.replayed = len(cases) + len(chain_cases) + len(join_cases)
+    for c, r in zip(join_cases, results[n_main + len(chain_cases):]):
+        o = r["joins"]
+        exp = sorted(n for n, k in c["bag"].items() for _ in range(k))
+        key = ["join", c["join"], c["filter"], c["sel"]]
+        ctx.case(key, c["partners"] > 1 and "rejected" not in o, sample={"pattern": key, "expected_bag": exp, "memory": o.get("memory"), "sql": o.get("sql"),
+                                                                         "rejected": o.get("rejected")})
+        problems = []
+        if "rejected" not in o:
+            if "sql_error" in o:
+                problems.append("translation accepted but execution raised " + o["sql_error"])
+            elif o.get("sql") != exp:
+                problems.append(f"SQL reports {o.get('sql')}, one row per (a, c) binding is {exp} (in memory: {o.get('memory', o.get('memory_error'))})")
+        if "the_rejected" not in o and not problems:
+            want = {"one": "one", "NoSolutionFound": "none", "MultipleSolutionFound": "many"}[c["the"]]
+            got = FAIL.get((o.get("the_sql_error") or "").split(":")[0], "one" if "the_sql" in o else o.get("the_sql_error"))
+            if got != want:
+                problems.append(f"the(...): SQL outcome {got}, the bindings say {want} (in memory: {o.get('the_memory', o.get('the_memory_error'))})")
+        if problems and c["join"] in ("one_back", "one_a_back_a"):
+            # the join runs across the self-referential relationship `one` (generated without remote_side): finding F09
+            ctx.known_finding("C07-F09", {"join": key, "expected_bag": exp, "observed": o, "problems": problems})
+        elif problems:
+            ctx.violation({"join": key, "expected_bag": exp, "observed": o, "problems": problems},
+                          note="a join between two variables: the translated SQL does not report one row per binding / the() disagrees")
+        elif "memory" in o and o["memory"] != exp:
+            ctx.drift += 1          # the in-memory evaluation differs from the reference: C01's business, not C07's
+    results = results[:n_main + len(chain_cases)]
     for c, r in zip(chain_cases, results[n_main:]):
         o = r["chains"]
         atoms_ = c.get("atoms") or c.get("satoms")
